@@ -53,19 +53,24 @@ def c05(ctx, spec):
 def hist_builds(cfgs):
     return [dict(name='hist_t%d_d%d_tr%d' % (t, d, tr), src='harness/hist.cpp', cfg='asan', defs=['H_T=%d' % t, 'H_D=%d' % d, 'H_TR=%d' % tr]) for (t, d, tr) in cfgs]
 
-def hist_run(ctx, cfgs, n, extra=(), shards=2):
-    ctx.build(hist_builds(cfgs))
+def hist_run(ctx, cfgs, n, extra=(), shards=2, zero_d=False):
+    ctx.build(hist_builds(cfgs) + ([dict(name='hist0', src='harness/hist0.cpp', cfg='asan', defs=[], may_fail=True)] if zero_d else []))
+    if zero_d:
+        if not ctx.built['hist0']['ok']:   # the 0-D history uses only documented constructors / assignments of array<T,0>, with assertions enabled
+            ctx.add_violation(ctx.pid + ':0-D:copy/assign-operations-do-not-compile', 'a history over array<T,0> (construct, copy, copy with allocator, move, assign) does not compile with assertions enabled: '
+                              + ' | '.join(l.strip() for l in ctx.built['hist0']['log'].splitlines() if 'error' in l)[:500], desc='compile of harness/hist0.cpp against the tree')
+        else: ctx.run_sharded('hist0', max(2000, n // 2), args=['--prop', ctx.pid], shards=shards)
     for (t, d, tr) in cfgs:
         ctx.run_sharded('hist_t%d_d%d_tr%d' % (t, d, tr), n, args=['--prop', ctx.pid, '--maxext', 3 if d < 4 else 2, '--steps', T(ctx, 12, 40)] + list(extra), shards=shards)
     other = {k: v for k, v in ctx.counters.items() if k.startswith('otherprop:')}
     if other: ctx.extra['violations_of_other_properties_seen_by_this_engine (reported by their own checks)'] = other
 
 def c04(ctx, spec):
-    hist_run(ctx, [(1, 1, 0), (1, 2, 0), (1, 3, 0), (1, 4, 0), (0, 2, 0), (0, 3, 0), (2, 1, 0), (2, 2, 0)], T(ctx, 10000, 200000))
+    hist_run(ctx, [(1, 1, 0), (1, 2, 0), (1, 3, 0), (1, 4, 0), (0, 2, 0), (0, 3, 0), (2, 1, 0), (2, 2, 0)], T(ctx, 10000, 200000), zero_d=True)
 def c06(ctx, spec):
     hist_run(ctx, [(1, 1, 0), (1, 2, 0), (1, 3, 0), (1, 4, 0), (0, 1, 0), (0, 2, 0), (2, 2, 0), (2, 3, 0)], T(ctx, 10000, 200000))
 def c08(ctx, spec):
-    hist_run(ctx, [(1, 1, 0), (1, 2, 0), (1, 3, 0), (1, 4, 0), (0, 1, 0), (0, 2, 0), (0, 3, 0), (2, 2, 0)], T(ctx, 10000, 200000))
+    hist_run(ctx, [(1, 1, 0), (1, 2, 0), (1, 3, 0), (1, 4, 0), (0, 1, 0), (0, 2, 0), (0, 3, 0), (2, 2, 0)], T(ctx, 10000, 200000), zero_d=True)
 def c10(ctx, spec):
     cfgs = [(1, 2, tr) for tr in range(16)] + [(1, 1, 0), (1, 1, 7), (1, 3, 0), (1, 3, 7)]
     hist_run(ctx, cfgs, T(ctx, 5000, 100000), extra=['--vary-alloc'], shards=1 if ctx.tier == 'quick' else 2)
